@@ -186,6 +186,27 @@ class ICircuitCompositeOperation(ICircuitOperation, metaclass=ABCMeta):
     # endregion
 
 
+def inherit_relation_link(operation: ICircuitOperation, link: IRelationLink) -> None:
+    """
+    Hands the relation link of an enclosing composite-operation to one of its operations without own relation.
+    A composite-operation receives an equivalent link of its own instead of the shared instance, such that distinct
+    (sub-)circuits never compare (and hash) equal, they are used as lookup keys while copying.
+    """
+    if isinstance(operation, ICircuitCompositeOperation):
+        if isinstance(link, MultiRelationLink):
+            link = MultiRelationLink(
+                _reference_nodes=link._reference_nodes,
+                _relation_to_group=link._relation_to_group,
+                _relation_type=link.relation_type,
+            )
+        else:
+            link = RelationLink(
+                _reference_node=link.reference_node,
+                _relation_type=link.relation_type,
+            )
+    operation.relation_link = link
+
+
 @dataclass(frozen=False, unsafe_hash=True)
 class CircuitCompositeOperation(ICircuitCompositeOperation):
     """
@@ -335,10 +356,11 @@ class CircuitCompositeOperation(ICircuitCompositeOperation):
         :return: Array-like of decomposed operations.
         """
         result: List[ICircuitOperation] = []
+        hand_down_relation: bool = self.has_relation
         for node in self._circuit_graph.get_node_iterator():
             # Apply relation-link head (Important for nested composite-operations)
-            if not node.operation.has_relation:
-                node.operation.relation_link = self.relation_link
+            if hand_down_relation and not node.operation.has_relation:
+                inherit_relation_link(node.operation, self.relation_link)
             # Extend decomposed operation list
             result.extend(node.operation.decomposed_operations())
         return result
@@ -378,8 +400,8 @@ class CircuitCompositeOperation(ICircuitCompositeOperation):
             )
 
         for node in other._circuit_graph.get_node_iterator():
-            if not node.operation.has_relation:
-                node.operation.relation_link = relation
+            if not root_is_leaf and not node.operation.has_relation:
+                inherit_relation_link(node.operation, relation)
             self.add(operation=node.operation)
         return self
 
@@ -396,11 +418,12 @@ class CircuitCompositeOperation(ICircuitCompositeOperation):
     def get_sub_composite_operations(self) -> List[ICircuitCompositeOperation]:
         """:return: Array-like of all operations that are of instance ICircuitCompositeOperation."""
         result: List[ICircuitCompositeOperation] = []
+        hand_down_relation: bool = self.has_relation
         for node in self._circuit_graph.get_node_iterator():
             # Apply relation-link head (as done when decomposing), such that nested composite-operations
             # report the same times whether or not the operations were decomposed before
-            if not node.operation.has_relation:
-                node.operation.relation_link = self.relation_link
+            if hand_down_relation and not node.operation.has_relation:
+                inherit_relation_link(node.operation, self.relation_link)
             if isinstance(node.operation, CircuitCompositeOperation):
                 result.append(node.operation)
                 result.extend(node.operation.get_sub_composite_operations())
